@@ -478,6 +478,11 @@ def run_check(engine, prop, tier, seed, jobs, cases=None, budget_s=None, quiet=F
         if stats.get(k, 0) < n:
             print("HARNESS-ERROR: reach counter %s=%d below required %d: nothing evaluated" % (k, stats.get(k, 0), n), file=sys.stderr)
             return 2
+    for k in (engine.forbidden_reach(prop, tier) if hasattr(engine, "forbidden_reach") else []):
+        if stats.get(k, 0):
+            detail = {kk: v for kk, v in stats.items() if kk.startswith(k + ":")}
+            print("HARNESS-ERROR: counter %s=%d must be 0 %s" % (k, stats[k], detail), file=sys.stderr)
+            return 2
     return 0
 
 
